@@ -1,6 +1,7 @@
 import ZapVerif.Model.Callers
 import ZapVerif.Proofs.TransCaller
 import ZapVerif.Proofs.Callers
+import ZapVerif.Proofs.TransCapture
 /-! # C15 — caller and stack annotations identify the user's call site
 
 A stack is the list of frames (innermost first) that `runtime.Callers(0, …)` would enumerate from inside
@@ -334,5 +335,196 @@ theorem TrimmedPath_matches_source (d : Bool) (file : Bytes) (line : Nat) (fuel 
         have htake : file.take file.length = file := List.take_length
         simp [TrimmedPath_body, trimmedPath, trimmedFile, h1, h2, e1, e2, hne, hne2, hb1, hb2, hw, hw2,
           sliceVal_bytes, htake]
+
+end ZapVerif.C15
+
+/-! ## `stacktrace.Capture` IS the source (table `Gen/TransCapture.lean`)
+
+The body of internal/stacktrace/stack.go `Capture` — the `switch depth`, the first `runtime.Callers`, the doubling loop
+`for numFrames == len(pcs)`, the final re-slicing — translated mechanically, is interpreted on EVERY goroutine stack, every
+skip and every pooled slab: it stores in `stack.pcs` exactly what `Callers.capture` says (the model `capture_complete`,
+`caller_annotation` … are about), never indexes or slices out of range, and the loop terminates.  `runtime.Callers(skip,
+pcs)` fills `pcs` with the frames after the first `skip` and returns the count; `make([]uintptr, n)` is `n` zeros. -/
+namespace ZapVerif.C15
+set_option linter.unusedSimpArgs false
+open ZapVerif ZapVerif.GoMini ZapVerif.TransCapture ZapVerif.Gen.TransCapture
+
+/-- the state at the head of the doubling loop: `numFrames`, the local `pcs` -/
+def cAbs (skip : Nat) (flds : Env) (a : Nat × List Val) : State :=
+  ⟨[("p0", .int skip), ("p1", .int 1), ("l0", .int a.1), ("l1", .list a.2)], flds⟩
+
+theorem callersV_len (st : List Val) (sk : Nat) (pcs : List Val) :
+    (callersV st (sk : Int) pcs).2 = (Callers.callers st sk pcs.length).length ∧
+    (callersV st (sk : Int) pcs).1.length = pcs.length ∧
+    (callersV st (sk : Int) pcs).1.take (Callers.callers st sk pcs.length).length = Callers.callers st sk pcs.length := by
+  refine ⟨?_, ?_, ?_⟩
+  · simp [callersV, Callers.callers]
+  · simp only [callersV, Int.toNat_natCast, List.length_append, List.length_drop, List.length_take]; omega
+  · simp [callersV, Callers.callers]
+
+/-- one pass through the loop body: a fresh slice of twice the length, filled by `runtime.Callers` -/
+theorem Capture_iter_matches_source (P : Par) (skip : Nat) (flds : Env) (hskip : (skip : Int) + 2 < 9223372036854775808)
+    (n : Nat) (l1 : List Val) (hl : (l1.length : Int) * 2 < 9223372036854775808)
+    (rec : Stmt → State → GoMini.Out) (k : State → GoMini.Out) :
+    (execS (X P) rec Capture_loop0.lbody (cAbs skip flds (n, l1))).loopBody
+      (fun σ' => (execS (X P) rec Capture_loop0.lpost σ').loopPost k) =
+      k (cAbs skip flds ((callersV P.st ((skip + 2 : Nat) : Int) (List.replicate (l1.length * 2) (Val.int 0))).2,
+                         (callersV P.st ((skip + 2 : Nat) : Int) (List.replicate (l1.length * 2) (Val.int 0))).1)) := by
+  have hw2 : wrap .int ((skip : Int) + 2) = (skip : Int) + 2 := by rw [wrap_int_id] <;> omega
+  have hwm : wrap .int ((l1.length : Int) * 2) = (l1.length : Int) * 2 := by rw [wrap_int_id] <;> omega
+  have hz : ext P "make.zeros" [.int ((l1.length : Int) * 2)] = some [.list (List.replicate (l1.length * 2) (.int 0))] := by
+    have := ext_zeros P (l1.length * 2); push_cast at this; exact this
+  simp [Capture_loop0, Stmt.lbody, Stmt.lpost, cAbs, hwm, hz, hw2]
+
+/-- the doubling loop is `Callers.captureLoop` -/
+theorem Capture_loop_matches_source (P : Par) (skip : Nat) (flds : Env) (hst : 2 * (P.st.length : Int) < 9223372036854775808)
+    (hskip : (skip : Int) + 2 < 9223372036854775808) (r : List Val) (fuel : Nat) :
+    ∀ (fuelM : Nat) (l1 : List Val),
+      (l1.length : Int) < 9223372036854775808 →
+      l1.take (Callers.callers P.st (skip + 2) l1.length).length = Callers.callers P.st (skip + 2) l1.length →
+      Callers.captureLoop P.st (skip + 2) fuelM l1.length = some r →
+      ∃ l1' : List Val,
+        execS (X P) (exec (X P) (fuel + fuelM)) Capture_loop0
+            (cAbs skip flds ((Callers.callers P.st (skip + 2) l1.length).length, l1)) =
+          .normal (cAbs skip flds (r.length, l1')) ∧ l1'.take r.length = r ∧ r.length ≤ l1'.length := by
+  have hL : Capture_loop0 = .loop Capture_loop0.lcond Capture_loop0.lpost Capture_loop0.lbody := rfl
+  have hw2 : wrap .int ((skip : Int) + 2) = ((skip + 2 : Nat) : Int) := by rw [wrap_int_id] <;> omega
+  have hcond : ∀ a : Nat × List Val,
+      evalE (X P) (cAbs skip flds a) Capture_loop0.lcond = .ok (.bool (decide ((a.1 : Int) = a.2.length))) := by
+    intro a; simp [Capture_loop0, Stmt.lcond, cAbs]
+  have hexit : ∀ (fuelM : Nat) (l1 : List Val),
+      ¬ (Callers.callers P.st (skip + 2) l1.length).length = l1.length →
+      l1.take (Callers.callers P.st (skip + 2) l1.length).length = Callers.callers P.st (skip + 2) l1.length →
+      ∃ l1' : List Val,
+        execS (X P) (exec (X P) (fuel + fuelM)) Capture_loop0
+            (cAbs skip flds ((Callers.callers P.st (skip + 2) l1.length).length, l1)) =
+          .normal (cAbs skip flds ((Callers.callers P.st (skip + 2) l1.length).length, l1')) ∧
+        l1'.take (Callers.callers P.st (skip + 2) l1.length).length = Callers.callers P.st (skip + 2) l1.length ∧
+        (Callers.callers P.st (skip + 2) l1.length).length ≤ l1'.length := by
+    intro fuelM l1 hne htake
+    refine ⟨l1, ?_, htake, ?_⟩
+    · rw [hL, execS_loop, hcond]
+      have : ¬ (((Callers.callers P.st (skip + 2) l1.length).length : Int) = l1.length) := by omega
+      simp [this]
+    · simp only [Callers.callers, List.length_take]; omega
+  intro fuelM
+  induction fuelM with
+  | zero =>
+    intro l1 hl htake hcl
+    simp only [Callers.captureLoop] at hcl
+    split at hcl
+    · exact absurd hcl (by simp)
+    · rename_i hne
+      have hr : r = Callers.callers P.st (skip + 2) l1.length := by simpa using hcl.symm
+      subst hr
+      exact hexit 0 l1 hne htake
+  | succ m ih =>
+    intro l1 hl htake hcl
+    simp only [Callers.captureLoop] at hcl
+    split at hcl
+    · rename_i heq
+      -- one iteration: pcs = make(2·len), numFrames = Callers(skip+2, pcs)
+      have hle : l1.length ≤ P.st.length := by
+        have := heq; simp only [Callers.callers, List.length_take, List.length_drop] at this; omega
+      have hg : Gen.Callers.growFactor * l1.length = l1.length * 2 := by
+        simp [Gen.Callers.growFactor]; omega
+      rw [hg] at hcl
+      have hc := callersV_len P.st (skip + 2) (List.replicate (l1.length * 2) (Val.int 0))
+      simp only [List.length_replicate] at hc
+      obtain ⟨hc1, hc2, hc3⟩ := hc
+      have := ih (callersV P.st ((skip + 2 : Nat) : Int) (List.replicate (l1.length * 2) (Val.int 0))).1
+        (by rw [hc2]; push_cast; omega) (by rw [hc2]; exact hc3) (by rw [hc2]; exact hcl)
+      rw [hc2] at this
+      obtain ⟨l1', hrun, h2, h3⟩ := this
+      refine ⟨l1', ?_, h2, h3⟩
+      rw [hL, execS_loop, hcond]
+      have hq : (((Callers.callers P.st (skip + 2) l1.length).length : Int) = l1.length) := by omega
+      simp only [hq, decide_true, Res.out, condK]
+      rw [← hL]
+      have hrec : ∀ σ, exec (X P) (fuel + (m + 1)) Capture_loop0 σ =
+          execS (X P) (exec (X P) (fuel + m)) Capture_loop0 σ := fun σ => by rw [← exec_succ]; rfl
+      rw [Capture_iter_matches_source P skip flds hskip _ l1 (by omega), hrec, hc1]
+      exact hrun
+    · rename_i hne
+      have hr : r = Callers.callers P.st (skip + 2) l1.length := by simpa using hcl.symm
+      subst hr
+      exact hexit (m + 1) l1 hne htake
+
+/-- **Capture_matches_source**: whatever `Callers.capture` yields for this stack, skip, depth and slab length is what the
+    interpreted `Capture` leaves in `stack.pcs` (and hands to `runtime.CallersFrames`); `storage` ends at least as long. -/
+theorem Capture_matches_source (P : Par) (skip : Nat) (full : Bool) (storage : List Val) (pcs0 frames0 self : Val)
+    (hslab : 0 < storage.length) (hsl : (storage.length : Int) < 9223372036854775808)
+    (hst : 2 * (P.st.length : Int) < 9223372036854775808) (hskip : (skip : Int) + 2 < 9223372036854775808)
+    (r : List Val) (hcap : Callers.capture P.st skip full storage.length = some r) (fuel : Nat) :
+    ∃ storage' : List Val,
+      run (X P) (fuel + P.st.length + 1) "Capture" [.int skip, .int (if full then 1 else 0)]
+          (capFld pcs0 storage frames0 self) =
+        .done [self] (capFld (.list r) storage' (framesV (.list r)) self) ∧ r.length ≤ storage'.length := by
+  have hw2 : wrap .int ((skip : Int) + 2) = (skip : Int) + 2 := by rw [wrap_int_id] <;> omega
+  have hfin : ∀ (out : GoMini.Out) (res : List Val) (fl : Env),
+      out.fin = some (res, fl) →
+      (exec (X P) (fuel + P.st.length + 1) Capture_body
+        ⟨[("p0", .int skip), ("p1", .int (if full then 1 else 0))], capFld pcs0 storage frames0 self⟩) = out →
+      run (X P) (fuel + P.st.length + 1) "Capture" [.int skip, .int (if full then 1 else 0)]
+          (capFld pcs0 storage frames0 self) = .done res fl := by
+    intro out res fl h1 h2
+    refine run_of_fin (X P) _ _ Gen.TransCapture.Capture [.int skip, .int (if full then 1 else 0)] _ _ _ rfl rfl ?_
+    subst h2; exact h1
+  cases full with
+  | false =>
+    have hr : r = Callers.callers P.st (skip + 2) 1 := by
+      simpa [Callers.capture, Callers.callers, Gen.Callers.captureCallersOffset] using hcap.symm
+    subst hr
+    have hone : (1 : Int) ≤ storage.length := by omega
+    have hc := callersV_len P.st (skip + 2) (storage.take 1)
+    have htl : (storage.take 1).length = 1 := by simp; omega
+    have hcast : ((skip + 2 : Nat) : Int) = (skip : Int) + 2 := by push_cast; rfl
+    rw [htl, hcast] at hc
+    obtain ⟨hc1, hc2, hc3⟩ := hc
+    have hle : (Callers.callers P.st (skip + 2) 1).length ≤ 1 := by
+      simp only [Callers.callers, List.length_take]; omega
+    have hleI : ((Callers.callers P.st (skip + 2) 1).length : Int) ≤ 1 := by exact_mod_cast hle
+    refine ⟨storage, hfin _ _ _ ?_ rfl, ?_⟩
+    · rw [exec_succ]
+      simp [Capture_body, hw2, hone, hc1, hc2, hc3, hle, hleI]
+    · simp only [Callers.callers, List.length_take]; omega
+  | true =>
+    have hcl : Callers.captureLoop P.st (skip + 2) P.st.length storage.length = some r := by
+      simpa [Callers.capture, Gen.Callers.captureCallersOffset] using hcap
+    have hcast : ((skip + 2 : Nat) : Int) = (skip : Int) + 2 := by push_cast; rfl
+    have hc := callersV_len P.st (skip + 2) storage
+    rw [hcast] at hc
+    obtain ⟨hc1, hc2, hc3⟩ := hc
+    obtain ⟨l1', hrun, ht, hlen⟩ := Capture_loop_matches_source P skip
+      [("pcs", .list (callersV P.st ((skip : Int) + 2) storage).1), ("storage", .list storage), ("frames", frames0),
+        ("self", self)] hst hskip r fuel P.st.length (callersV P.st ((skip : Int) + 2) storage).1
+      (by rw [hc2]; exact hsl) (by rw [hc2]; exact hc3) (by rw [hc2]; exact hcl)
+    rw [hc2] at hrun
+    have hlenI : (r.length : Int) ≤ l1'.length := by exact_mod_cast hlen
+    have hrun' : execS (X P) (exec (X P) (fuel + P.st.length)) Capture_loop0
+        ⟨[("p0", .int skip), ("p1", .int 1), ("l0", .int (Callers.callers P.st (skip + 2) storage.length).length),
+          ("l1", .list (callersV P.st ((skip : Int) + 2) storage).1)],
+         [("pcs", .list (callersV P.st ((skip : Int) + 2) storage).1), ("storage", .list storage), ("frames", frames0),
+          ("self", self)]⟩ =
+        .normal ⟨[("p0", .int skip), ("p1", .int 1), ("l0", .int r.length), ("l1", .list l1')],
+         [("pcs", .list (callersV P.st ((skip : Int) + 2) storage).1), ("storage", .list storage), ("frames", frames0),
+          ("self", self)]⟩ := by
+      simpa [cAbs] using hrun
+    refine ⟨l1', hfin _ _ _ ?_ rfl, hlen⟩
+    rw [exec_succ]
+    simp [Capture_body, hw2, hc1, hrun', hlenI, ht]
+
+/-- with `capture_full`: `Capture(skip, Full)` stores EVERY frame from the requested one outward, whatever the depth of
+    the stack and the size of the pooled slab (the loop terminates and nothing is truncated) -/
+theorem Capture_full_matches_source (P : Par) (skip : Nat) (storage : List Val) (pcs0 frames0 self : Val)
+    (hslab : 0 < storage.length) (hsl : (storage.length : Int) < 9223372036854775808)
+    (hst : 2 * (P.st.length : Int) < 9223372036854775808) (hskip : (skip : Int) + 2 < 9223372036854775808) (fuel : Nat) :
+    ∃ storage' : List Val,
+      run (X P) (fuel + P.st.length + 1) "Capture" [.int skip, .int 1] (capFld pcs0 storage frames0 self) =
+        .done [self] (capFld (.list (P.st.drop (skip + 2))) storage' (framesV (.list (P.st.drop (skip + 2)))) self) := by
+  have h := Callers.capture_full P.st skip storage.length hslab
+  rw [show Gen.Callers.captureCallersOffset = 2 from rfl] at h
+  obtain ⟨s', hrun, -⟩ := Capture_matches_source P skip true storage pcs0 frames0 self hslab hsl hst hskip _ h fuel
+  exact ⟨s', hrun⟩
 
 end ZapVerif.C15
